@@ -85,6 +85,17 @@ class C12(Check):
             progs.append([st, ("write", GOOD_EXTRA), ("endlocal",), ("write", GOOD_EXTRA), ("endextra",), ("write", b"xyz"), ("file", b"next", Opts()), ("write", b"xyz"), ("finish",)])
             progs.append([("rawcopy", src, 0, None), st, ("write", b"xyz"), ("rawcopy", src, 1, b"renamed"), ("finish",)])
             progs.append([st, ("endextra",), ("write", b"xyz"), ("dir", b"d", Opts()), ("finish",)])
+        # malformed extra data at every distance from the end of the supplied bytes (declared size overrunning by 1..5,
+        # header cut after 1..3 bytes, after a good record too), ended explicitly, through the central-only switch, and
+        # implicitly by every kind of next call
+        near = [bytes.fromhex(h) for h in ("efbe0200ab", "efbe0300abcd", "efbe0500ab", "efbe0600ab", "efbe0100", "ef", "efbe", "efbe01")]
+        near += [GOOD_EXTRA + b_ for b_ in near[:5]]
+        enders = [[("endextra",)], [("endlocal",)], [("finish",)], [("file", b"next", Opts())], [("dir", b"nd", Opts())],
+                  [("symlink", b"nl", b"t", Opts())], [("rawcopy", src, 1, None)], []]
+        for bad in near:
+            for en in enders:
+                progs.append([("extra", b"e", Opts()), ("write", bad)] + en + ([("finish",)] if en != [("finish",)] else []))
+                progs.append([("extra", b"e", Opts()), ("endlocal",), ("write", bad)] + en)
         # the encryption option: only start_file + write*
         for m in (0, 8):
             progs.append([("file", b"enc", Opts(method=m, pw=b"pw")), ("write", b"secret"), ("write", b" data"), ("file", b"plain", Opts()), ("write", b"p"), ("finish",)])
